@@ -36,8 +36,12 @@ def gen_cases(rng, tier, count=None):
             out.append(TS.wrapper_case(rng, tier))
         elif k < 16:
             a = SIMPLE[i % len(SIMPLE)]
-            out.append(gen.add_midqueries(rng, gen.add_queries(rng, gen.algo_case(rng, a, tier, fams=TS.FAMS,
-                                                                                  early_stop=False), 0.4)))
+            c = gen.algo_case(rng, a, tier, fams=TS.FAMS, early_stop=False)
+            if a == "StoSOO" and rng.random() < 0.35:
+                # a cap one or two levels too tight: the run ends when pull returns None; until then (and in any
+                # round an implementation serves instead) every reward must be credited to the pulled cell
+                c["params"]["h_max"] = max(1, c["params"]["h_max"] - int(rng.integers(1, 3)))
+            out.append(gen.add_midqueries(rng, gen.add_queries(rng, c, 0.4)))
         elif k < 18:
             c = gen.algo_case(rng, "Zooming", tier, fams=TS.FAMS, early_stop=False,
                               n_choices=[100, 200, 300] if tier == "quick" else [200, 500, 1000])
